@@ -24,6 +24,7 @@ import CxxModel.Theorems.FoldCount
 import CxxModel.Theorems.BlockEnd
 import CxxModel.Theorems.TopLevel
 import CxxModel.GenCfg
+import CxxModel.Theorems.WholeParse
 namespace Cxx
 
 /-- the world after `on_parse_start` satisfies the nesting invariant -/
@@ -152,5 +153,32 @@ theorem C04_toplevel_block_end (env : Env) (hc : env.cfg = genLexCfg) (F : Nat) 
   toplevel_block_end env (by rw [hc]; exact gen_rules_progress) F c w t b1 blk rest hstack hg hk ht hty
 
 end
+
+/-! ### whole sources -/
+
+/-- **block callbacks are paired, around their contents, for the same block** (`Theorems/ItemKinds.lean`):
+    what `parse()` delivers for `namespace N { body }` from ANY state at non-class scope with an
+    active visitor — for ANY body that is an `Item`, so to any nesting depth — is one start callback
+    for a fresh block that is a child of the enclosing block, the body's callbacks inside THAT block,
+    and one end callback for the same block; and the block stack afterwards is what it was. -/
+theorem C04_namespace_block (env : Env) (hc : env.cfg = genLexCfg) (hnf : env.faultAt = none) (hskip : ∀ i h, env.skip i h = false)
+    (F D : Nat) (names : List String) (body : Item env F (P.core F (D + 1 + 1 + 1 + 1)))
+    (w : World) (b' : Buf) (blk : Block) (rest : List Block) (hst : w.stack = blk :: rest) (hk : blk.hdr.kind ≠ .cls)
+    (hmu : w.muted = false)
+    (hat : (Item.ns env (by rw [hc]; exact gen_rules_progress) hnf F D hskip names body).At w.buf b') :
+    ∃ (w7 : World) (evs : List Event), Ran env F (P.core F (D + 1 + 1 + 1 + 1)) w (body.size + 2) b' blk rest evs w7 ∧
+      BlockEvents blk (fun h => h.kind = .ns ∧ h.ns.names = names ∧ h.ns.inline = false)
+        (fun nb mid => body.Ev nb (blk :: rest) mid) evs :=
+  (Item.ns env (by rw [hc]; exact gen_rules_progress) hnf F D hskip names body).sound w b' blk rest hst hk hmu hat
+
+/-- the same for `extern "L" { body }` -/
+theorem C04_extern_block (env : Env) (hc : env.cfg = genLexCfg) (hnf : env.faultAt = none) (hskip : ∀ i h, env.skip i h = false)
+    (F D : Nat) (linkage : String) (body : Item env F (P.core F (D + 1 + 1 + 1 + 1)))
+    (w : World) (b' : Buf) (blk : Block) (rest : List Block) (hst : w.stack = blk :: rest) (hk : blk.hdr.kind ≠ .cls)
+    (hmu : w.muted = false)
+    (hat : (Item.externBlock env (by rw [hc]; exact gen_rules_progress) hnf F D hskip linkage body).At w.buf b') :
+    ∃ (w7 : World) (evs : List Event), Ran env F (P.core F (D + 1 + 1 + 1 + 1)) w (body.size + 2) b' blk rest evs w7 ∧
+      BlockEvents blk (fun h => h.kind = .ext ∧ h.linkage = linkage) (fun nb mid => body.Ev nb (blk :: rest) mid) evs :=
+  (Item.externBlock env (by rw [hc]; exact gen_rules_progress) hnf F D hskip linkage body).sound w b' blk rest hst hk hmu hat
 
 end Cxx
